@@ -71,6 +71,19 @@ def step_items(kind, k):
         return [("PUSH", 32), ("PUSH", 0x700), ("PUSH", 32), ("PUSH", 0x100), ("PUSH", 4), "GAS", "STATICCALL", "POP"]
     if kind == "cheat":
         return e2e.call_cheat("warp(uint256)", [[("PUSH", 99)]]) + ["POP", "TIMESTAMP", ("PUSH", out), "MSTORE"]
+    if kind == "prankc":
+        return e2e.call_cheat("prank(address)", [[("PUSH", 0xA11CE, 20)]]) + ["POP"]
+    if kind == "prankb":
+        return e2e.call_cheat("prank(address)", [[("PUSH", 0xB0B, 20)]]) + ["POP"]
+    if kind == "startPrankc":
+        return e2e.call_cheat("startPrank(address)", [[("PUSH", 0xA11CE, 20)]]) + ["POP"]
+    if kind in ("create2", "create2b"):
+        # CREATE2 with a concrete salt: the new address (word 0 of the window) and the child's view of its creator (word 1)
+        salt = 7 if kind == "create2" else 8
+        return [("PUSHSIZE", "ci", "ce"), ("PUSHM", "ci"), ("PUSH", 0x300), "CODECOPY", ("PUSH", salt), ("PUSHSIZE", "ci", "ce"), ("PUSH", 0x300),
+                ("PUSH", 0), "CREATE2", "DUP1", ("PUSH", out), "MSTORE",
+                ("PUSH", 64), ("PUSH", 0x7C0), ("PUSH", 0), ("PUSH", 0), ("PUSH", 0), "DUP6", "GAS", "CALL", "POP", "POP",
+                ("PUSH", 0x7C0), "MLOAD", ("PUSH", out + 32), "MSTORE"]
     if kind == "create":
         # child constructor stores CALLER and ORIGIN in its runtime code's return data: runtime returns (creator, origin)
         return [("PUSHSIZE", "ci", "ce"), ("PUSHM", "ci"), ("PUSH", 0x300), "CODECOPY", ("PUSHSIZE", "ci", "ce"), ("PUSH", 0x300),
@@ -128,7 +141,11 @@ def prank_programs(maxlen):
     # forks around pranks: explicit histories of length 3-4 (both exploration orders arise from the two JUMPI arms)
     for hist in [("prank", "branch", "call"), ("branch", "prank", "call"), ("startPrank", "branch", "call", "call"),
                  ("startPrank", "branch-stop", "call"), ("prank2", "branch", "nested"), ("startPrank2", "branch", "create"),
-                 ("branch", "startPrank", "call", "stopPrank"), ("prank", "branch", "cheat", "call")]:
+                 ("branch", "startPrank", "call", "stopPrank"), ("prank", "branch", "cheat", "call"),
+                 # CREATE2 made by a pranking frame: the deployer in the address formula is the pranked sender
+                 ("create2",), ("prankc", "create2"), ("startPrankc", "create2", "create2b"), ("prankc", "create2", "create2b"),
+                 ("prankc", "call", "create2"), ("prankc", "create2", "prankb", "create2"), ("create2", "create2"),
+                 ("prankc", "create2", "create2"), ("create2", "prankc", "create2")]:
         items = []
         for k, kind in enumerate(hist):
             items += step_items(kind, k)
